@@ -225,8 +225,8 @@ def check_rank(case, rec):
 
 SUBS = [
     Sub("tables", check_tables, enum=enum_tables, doc="all rules x monomials up to documented degree"),
-    Sub("mesh", check_mesh, gen=mesh_cases, quick=120, thorough=1500, shards=8),
-    Sub("rank", check_rank, gen=rank_cases, quick=60, thorough=600, shards=6),
+    Sub("mesh", check_mesh, gen=mesh_cases, quick=300, thorough=1500, shards=8),
+    Sub("rank", check_rank, gen=rank_cases, quick=150, thorough=600, shards=6),
 ]
 
 LEVEL_TEXT = ("complete enumeration of all quadrature rules/factory pairs against closed-form monomial integrals "
